@@ -340,7 +340,10 @@ def _helper_strategy(tier):
                 "elastica_time_matches": draw(st.booleans()), "elastica_time": draw(gen.floats(0.0, 100.0, 64)),
                 "unrelated": draw(st.lists(st.sampled_from(["notes.txt", "rod_0003.h5", "forcing_grid_0007.h5", "sopht_0001_eulerian.xmf",
                                                             "snap_00012.png", "sopht.h5.bak"]), max_size=3, unique=True)),
-                "dim": draw(st.sampled_from([2, 3])), "dtype": draw(gen.precisions), "n_elems": draw(st.integers(3, 8))}
+                "dim": draw(st.sampled_from([2, 3])), "dtype": draw(gen.precisions), "n_elems": draw(st.integers(3, 8)),
+                # valid body / forcing-grid files with an index ABOVE the largest flow checkpoint (left over from a longer earlier run,
+                # or the flow files of those steps were deleted to rewind): the flow file index decides which triple is loaded
+                "orphans": draw(st.lists(st.tuples(st.sampled_from(["rod", "forcing_grid"]), st.integers(1, 30)).map(list), max_size=2))}
 
     return case()
 
@@ -393,6 +396,12 @@ def _helper_body(case, ctx):
             W["io"].save(h5_file_name=f"sopht_{i:04d}.h5", time=t)
             W["rod_io"].save(h5_file_name=f"rod_{i:04d}.h5", time=t)
             W["forcing_io"].save(h5_file_name=f"forcing_grid_{i:04d}.h5", time=t)
+        for fam, off in (case.get("orphans", []) if case["indices"] else []):
+            j = max(case["indices"]) + int(off)
+            W["forcing"][...] = 2 * j + 1
+            W["gridpos"][...] = j
+            W["rod"].radius[...] = 0.01 * (j % 97 + 1)
+            (W["rod_io"] if fam == "rod" else W["forcing_io"]).save(h5_file_name=f"{fam}_{j:04d}.h5", time=1e3 + j)
         for u in case["unrelated"]:
             if not os.path.exists(u):
                 with open(u, "w") as f:
@@ -434,7 +443,8 @@ def _helper_body(case, ctx):
         if not (np.all(W2["vort"] == latest + 0.5) and np.all(W2["vel"] == -latest - 0.25) and np.all(W2["forcing"] == 2 * latest + 1)
                 and np.all(W2["gridpos"] == latest)):
             raise Violation(f"restart helper did not load the triple with the largest index {latest} (indices present {sorted(case['indices'])})")
-        ctx.note(nontrivial=len(case["indices"]) >= 2, labels=["loaded_latest", "index_ge_10000" if latest >= 10000 else "index_lt_10000"])
+        ctx.note(nontrivial=len(case["indices"]) >= 2, labels=["loaded_latest", "index_ge_10000" if latest >= 10000 else "index_lt_10000"]
+                 + (["later_body_or_forcing_files_present"] if case.get("orphans") else []))
     finally:
         os.chdir(cwd)
         shutil.rmtree(tmp, ignore_errors=True)
